@@ -385,6 +385,23 @@ pub fn corpus() -> &'static Vec<Artefact> {
                 }
             }
         }
+        // --- UPLC text whose string constants carry escapes: the printer writes every non-ASCII
+        // byte as `\xNN`, so a saved program with an accented message looks like this
+        for (i, body) in [
+            r#"[ (builtin appendString) (con string "caf\xc3\xa9 \xe2\x82\xac10 \xf0\x9f\x98\x80") (con string "tab\there \"quoted\" back\\slash\n") ]"#,
+            r#"(con (list string) ["\xc3\xa9", "a\x41b", "\xe2\x82\xac"])"#,
+            r#"(con (pair string bytestring) ("na\xc3\xafve", #c3a9))"#,
+        ]
+        .iter()
+        .enumerate()
+        {
+            let code = format!("(program 1.1.0 {body})");
+            arts.push(Artefact { kind: Kind::UplcText, id: format!("escapes/{i}.uplc"), bytes: code.clone().into_bytes(), alt: None, hot: vec![] });
+            // and the same program as the tool-chain prints it
+            if let Ok(Ok(p)) = guard(|| uplc::parser::program(&code)) {
+                arts.push(Artefact { kind: Kind::UplcText, id: format!("escapes/{i}.printed.uplc"), bytes: p.to_pretty().into_bytes(), alt: None, hot: vec![] });
+            }
+        }
         // --- Aiken sources and manifests shipped in the tree
         let acc = acceptance_projects();
         for (i, proj) in acc.iter().enumerate() {
@@ -439,6 +456,7 @@ pub fn corpus() -> &'static Vec<Artefact> {
             }
         }
         // --- parameter data
+        let chunked = format!("5f5840{}4101ff", "aa".repeat(64));
         for (i, hexs) in [
             "d8799f182a4568656c6c6fff",
             "9f0102031864ff",
@@ -446,7 +464,7 @@ pub fn corpus() -> &'static Vec<Artefact> {
             "d8799fd87a80d8799f1a000f4240ffff",
             "c24a01000000000000000000",
             "d905039f0102ff",
-            "5f5840aaaaaaaaaaaaaaaaaaaaaaaaaaaaaaaaaaaaaaaaaaaaaaaaaaaaaaaaaaaaaaaaaaaaaaaaaaaaaaaaaaaaaaaaaaaaaaaaaaaaaaaaaaaaaaaaaaaaaaaaaaaaaaaaaaaa4101ff",
+            chunked.as_str(),
         ]
         .iter()
         .enumerate()
@@ -474,6 +492,9 @@ pub enum Verdict {
 }
 
 fn follow<T>(entry: &str, f: impl FnOnce() -> T) -> Result<T, Verdict> {
+    if std::env::var_os("NEST_TRACE").is_some() {
+        eprintln!("[stage] {entry}");
+    }
     guard(f).map_err(|info| Verdict::Panic {
         entry: entry.to_string(),
         info,
@@ -761,6 +782,26 @@ fn gen_fault(rng: &mut Rng, a: &Artefact) -> Fault {
             }
         }
     }
+    if a.kind.is_text() && rng.chance(1, 6) {
+        // Positions aligned to an escape sequence inside the text: the escape lost, written twice,
+        // cut in the middle, or the file ending right after it.
+        let slashes: Vec<usize> = a.bytes.iter().enumerate().filter(|(_, b)| **b == b'\\').map(|(i, _)| i).collect();
+        if !slashes.is_empty() {
+            let p = *rng.pick(&slashes);
+            let len = match a.bytes.get(p + 1) {
+                Some(b'x') => 4,
+                Some(b'u') => a.bytes[p..].iter().position(|b| *b == b'}').map(|e| e + 1).unwrap_or(2),
+                _ => 2,
+            };
+            return match rng.below(6) {
+                0 | 1 => Fault::DelRange(p, len),
+                2 => Fault::DupRange(p, len),
+                3 => Fault::Truncate(p + len),
+                4 => Fault::DelRange(p + 2, 1),
+                _ => Fault::Truncate(p + 2),
+            };
+        }
+    }
     if a.kind.is_text() && rng.chance(1, 4) {
         let lines = a.bytes.iter().filter(|b| **b == b'\n').count().max(1);
         let at = rng.usize_below(lines);
@@ -919,8 +960,8 @@ impl Engine for StorageEngine {
     }
     fn runs(&self, tier: Tier) -> u64 {
         match tier {
-            Tier::Quick => 640,
-            Tier::Thorough => RANDOM_RUNS_THOROUGH + exhaustive_plan().len() as u64,
+            Tier::Quick => 640 + NEST_SHAPES.len() as u64,
+            Tier::Thorough => RANDOM_RUNS_THOROUGH + exhaustive_plan().len() as u64 + NEST_SHAPES.len() as u64,
         }
     }
     fn selfcheck_runs(&self, tier: Tier) -> u64 {
@@ -931,6 +972,14 @@ impl Engine for StorageEngine {
     }
 
     fn run(&self, ctx: &mut RunCtx) {
+        let plain_runs = match ctx.tier {
+            Tier::Quick => 640,
+            Tier::Thorough => RANDOM_RUNS_THOROUGH + exhaustive_plan().len() as u64,
+        };
+        if ctx.k >= plain_runs {
+            nest_run(ctx, (ctx.k - plain_runs) as usize);
+            return;
+        }
         let arts = corpus();
         if arts.len() < 40 {
             ctx.harness_error(format!("artefact corpus too small: {}", arts.len()));
@@ -1057,6 +1106,10 @@ impl Engine for StorageEngine {
     }
 
     fn replay(&self, trace: &Value, ctx: &mut RunCtx) {
+        if jstr(trace, "kind") == "nest" {
+            nest_replay(ctx, trace);
+            return;
+        }
         let Some(kind) = trace
             .get("kind")
             .and_then(|k| serde_json::from_value::<Kind>(k.clone()).ok())
@@ -1137,7 +1190,395 @@ impl Engine for StorageEngine {
         }
     }
 
-    fn hang_bound(&self, _tier: Tier) -> std::time::Duration {
-        std::time::Duration::from_secs(180)
+    fn hang_bound(&self, tier: Tier) -> std::time::Duration {
+        // a nesting run spends up to a few child-process bounds
+        std::time::Duration::from_secs(match tier {
+            Tier::Quick => 600,
+            Tier::Thorough => 2400,
+        })
     }
+}
+
+// ------------------------------------------------------------------------------------------
+// Nesting workload: "overflows the stack on modest input, or loops".
+//
+// One case = one syntactically plain input whose only unusual feature is how deep it nests
+// (brackets, unary operators, `delay`s, CBOR list headers …), no larger than `NEST_CAP` bytes, fed
+// to the same consumer chain as the artefacts — in a CHILD PROCESS, on a thread with the main
+// thread's stack size, because the outcomes looked for (stack overflow → SIGABRT/SIGSEGV, a
+// parse that does not come back) kill or stall whoever runs them. The child's only clock-dependent
+// verdict is "did not finish within the bound", and the bound is chosen three orders of magnitude
+// above what a linear consumer needs (48 levels of nesting parse in well under 10 ms when the
+// parser is linear; the cases that fail here would need centuries), so the verdict replays.
+// Only the 48-level rung is judged on time: on the deep rungs several consumers are merely
+// quadratic in the depth, which is slow but not a loop, so there a case that is still running at
+// the bound is counted as `slow` and never reported; deep rungs are judged on crashes only.
+
+pub const NEST_CAP: usize = 48 * 1024;
+const NEST_SMALL_DEPTH: usize = 48;
+const NEST_SMALL_BOUND_S: u64 = 20;
+const NEST_BIG_BOUND_QUICK_S: u64 = 60;
+const NEST_BIG_BOUND_THOROUGH_S: u64 = 200;
+
+pub const NEST_SHAPES: &[&str] = &[
+    "aiken-parens", "aiken-not", "aiken-negate", "aiken-lists", "aiken-tuples", "aiken-calls", "aiken-blocks", "aiken-if",
+    "aiken-type", "aiken-pattern", "aiken-binop",
+    "uplc-delay", "uplc-apply", "uplc-lam", "uplc-constr", "uplc-data-list", "uplc-data-constr", "uplc-list-type",
+    "flat-delay", "flat-apply", "cbor-delay", "hex-delay",
+    "data-lists", "data-constr", "data-maps",
+    "json-schema", "toml-arrays",
+];
+
+fn nested_term(shape: &str, depth: usize) -> Option<Vec<u8>> {
+    // built, encoded and leaked on a large stack (dropping a deep term recurses too)
+    let shape = shape.to_string();
+    on_fresh_thread("build", move || {
+        use uplc::ast::{Constant, DeBruijn, Term};
+        let mut t: Term<DeBruijn> = Term::Constant(Constant::Unit.into());
+        for _ in 0..depth {
+            t = if shape.ends_with("apply") {
+                Term::Apply { function: Term::Lambda { parameter_name: DeBruijn::new(0).into(), body: Term::Var(DeBruijn::new(1).into()).into() }.into(), argument: t.into() }
+            } else {
+                Term::Delay(t.into())
+            };
+        }
+        let p = Program { version: (1, 0, 0), term: t };
+        let out = if shape.starts_with("flat") {
+            p.to_flat().ok()
+        } else if shape.starts_with("cbor") {
+            p.to_cbor().ok()
+        } else {
+            p.to_hex().ok().map(|h| h.into_bytes())
+        };
+        std::mem::forget(p);
+        out
+    })
+    .ok()
+    .flatten()
+}
+
+pub fn nest_input(shape: &str, depth: usize) -> Option<(Kind, Vec<u8>)> {
+    let rep = |s: &str| s.repeat(depth);
+    let text = |k: Kind, s: String| Some((k, s.into_bytes()));
+    match shape {
+        "aiken-parens" => text(Kind::AikenLib, format!("pub fn f() {{\n  {}1{}\n}}\n", rep("("), rep(")"))),
+        "aiken-not" => text(Kind::AikenLib, format!("pub fn f(x: Bool) {{\n  {}x\n}}\n", rep("!"))),
+        "aiken-negate" => text(Kind::AikenLib, format!("pub fn f(x: Int) {{\n  {}x\n}}\n", rep("- "))),
+        "aiken-lists" => text(Kind::AikenLib, format!("pub const c = {}1{}\n", rep("["), rep("]"))),
+        "aiken-tuples" => text(Kind::AikenLib, format!("pub fn f() {{\n  {}1{}\n}}\n", rep("(1, "), rep(")"))),
+        "aiken-calls" => text(Kind::AikenLib, format!("pub fn g(x: Int) -> Int {{\n  x\n}}\n\npub fn f() {{\n  {}1{}\n}}\n", rep("g("), rep(")"))),
+        "aiken-blocks" => text(Kind::AikenLib, format!("pub fn f() {{\n  {}1{}\n}}\n", rep("{ "), rep(" }"))),
+        "aiken-if" => text(Kind::AikenLib, format!("pub fn f(x: Bool) {{\n  {}1{}\n}}\n", rep("if x { "), rep(" } else { 0 }"))),
+        "aiken-type" => text(Kind::AikenLib, format!("pub fn f(x: {}Int{}) {{\n  x\n}}\n", rep("List<"), rep(">"))),
+        "aiken-pattern" => text(Kind::AikenLib, format!("pub fn f(x) {{\n  when x is {{\n    {}_{} -> 1\n    _ -> 0\n  }}\n}}\n", rep("Some("), rep(")"))),
+        "aiken-binop" => text(Kind::AikenLib, format!("pub fn f() {{\n  {}1{}\n}}\n", rep("1 + ("), rep(")"))),
+        "uplc-delay" => text(Kind::UplcText, format!("(program 1.0.0 {}(con unit ()){})", rep("(delay "), rep(")"))),
+        "uplc-apply" => text(Kind::UplcText, format!("(program 1.0.0 {}(con unit ()){})", rep("[ (lam x x) "), rep(" ]"))),
+        "uplc-lam" => text(Kind::UplcText, format!("(program 1.0.0 {}(con unit ()){})", rep("(lam x "), rep(")"))),
+        "uplc-constr" => text(Kind::UplcText, format!("(program 1.1.0 {}(con unit ()){})", rep("(constr 0 "), rep(")"))),
+        "uplc-data-list" => text(Kind::UplcText, format!("(program 1.0.0 (con data ({}I 1{})))", rep("List ["), rep("]"))),
+        "uplc-data-constr" => text(Kind::UplcText, format!("(program 1.0.0 (con data ({}I 1{})))", rep("Constr 0 ["), rep("]"))),
+        "uplc-list-type" => text(Kind::UplcText, format!("(program 1.0.0 (con {}integer{} {}1{}))", rep("(list "), rep(")"), rep("["), rep("]"))),
+        "flat-delay" | "flat-apply" => nested_term(shape, depth).map(|b| (Kind::Flat, b)),
+        "cbor-delay" => nested_term(shape, depth).map(|b| (Kind::Cbor, b)),
+        "hex-delay" => nested_term(shape, depth).map(|b| (Kind::Hex, b)),
+        "data-lists" => {
+            let mut b = vec![0x81u8; depth];
+            b.push(0x00);
+            Some((Kind::DataCbor, b))
+        }
+        "data-constr" => {
+            let mut b = vec![];
+            for _ in 0..depth {
+                b.extend([0xd8, 0x79, 0x81]);
+            }
+            b.push(0x00);
+            Some((Kind::DataCbor, b))
+        }
+        "data-maps" => {
+            let mut b = vec![];
+            for _ in 0..depth {
+                b.extend([0xa1, 0x00]);
+            }
+            b.push(0x00);
+            Some((Kind::DataCbor, b))
+        }
+        "json-schema" => text(
+            Kind::Blueprint,
+            format!(
+                "{{\"preamble\":{{\"title\":\"a/b\",\"version\":\"0.0.0\",\"plutusVersion\":\"v3\"}},\"validators\":[],\"definitions\":{{\"x\":{}{{\"dataType\":\"integer\"}}{}}}}}",
+                rep("{\"dataType\":\"list\",\"items\":"),
+                rep("}")
+            ),
+        ),
+        "toml-arrays" => text(Kind::Toml, format!("name = \"a/b\"\nversion = \"0.0.0\"\nplutus = \"v3\"\n[config.default]\nx = {}1{}\n", rep("["), rep("]"))),
+        _ => None,
+    }
+}
+
+/// Child-process entry: `dst nestcase <shape> <depth>`. Exit 0 = value or error, 3 = panic caught,
+/// death by signal = stack overflow / abort.
+pub fn nestcase_main(shape: &str, depth: usize) -> i32 {
+    let Some((kind, bytes)) = nest_input(shape, depth) else {
+        println!("NEST cannot build {shape} {depth}");
+        return 2;
+    };
+    let n = bytes.len();
+    let r = on_consumer_stack(move || {
+        let disk = RunDisk::new();
+        consume(kind, &bytes, &disk.root)
+    });
+    match r {
+        Ok(Verdict::Panic { entry, info }) => {
+            println!("NEST {shape} depth={depth} bytes={n}: PANIC in {entry}: {} @ {}", short(&info.message.replace('\n', " "), 200), info.site());
+            3
+        }
+        Ok(v) => {
+            println!("NEST {shape} depth={depth} bytes={n}: {:?}", v);
+            0
+        }
+        Err(p) => {
+            println!("NEST {shape} depth={depth} bytes={n}: PANIC in consumer thread: {}", short(&p.message, 200));
+            3
+        }
+    }
+}
+
+#[derive(Clone, Debug, PartialEq)]
+pub enum NestOutcome {
+    Fine,
+    Panic(String, String),
+    /// killed by a signal; last consumer stage entered
+    Died(String),
+    /// did not finish within the bound; last consumer stage entered
+    Stalled(String),
+    Harness(String),
+}
+
+/// Run one case in a child process with a wall bound.
+pub fn nest_child(shape: &str, depth: usize, bound_s: u64) -> (NestOutcome, std::time::Duration) {
+    use std::io::Read;
+    use std::process::{Command, Stdio};
+    let started = std::time::Instant::now();
+    let exe = match std::env::current_exe() {
+        Ok(e) => e,
+        Err(e) => return (NestOutcome::Harness(format!("current_exe: {e}")), started.elapsed()),
+    };
+    let mut child = match Command::new(exe)
+        .args(["nestcase", shape, &depth.to_string()])
+        .env("NEST_TRACE", "1")
+        .stdin(Stdio::null())
+        .stdout(Stdio::piped())
+        .stderr(Stdio::piped())
+        .spawn()
+    {
+        Ok(c) => c,
+        Err(e) => return (NestOutcome::Harness(format!("spawn: {e}")), started.elapsed()),
+    };
+    // stderr carries one short line per stage; read it on a thread so a full pipe never blocks the child
+    let mut err_pipe = child.stderr.take().expect("stderr");
+    let mut out_pipe = child.stdout.take().expect("stdout");
+    let err_reader = std::thread::spawn(move || {
+        let mut s = String::new();
+        let _ = err_pipe.read_to_string(&mut s);
+        s
+    });
+    let out_reader = std::thread::spawn(move || {
+        let mut s = String::new();
+        let _ = out_pipe.read_to_string(&mut s);
+        s
+    });
+    let deadline = started + std::time::Duration::from_secs(bound_s);
+    let status = loop {
+        match child.try_wait() {
+            Ok(Some(st)) => break Some(st),
+            Ok(None) => {
+                if std::time::Instant::now() >= deadline {
+                    let _ = child.kill();
+                    let _ = child.wait();
+                    break None;
+                }
+                std::thread::sleep(std::time::Duration::from_millis(15));
+            }
+            Err(e) => return (NestOutcome::Harness(format!("wait: {e}")), started.elapsed()),
+        }
+    };
+    let stderr = err_reader.join().unwrap_or_default();
+    let stdout = out_reader.join().unwrap_or_default();
+    let stage = stderr.lines().rev().find_map(|l| l.strip_prefix("[stage] ")).unwrap_or("<before the first stage>").to_string();
+    let took = started.elapsed();
+    let outcome = match status {
+        None => NestOutcome::Stalled(stage),
+        Some(st) => {
+            use std::os::unix::process::ExitStatusExt;
+            if st.signal().is_some() {
+                NestOutcome::Died(stage)
+            } else {
+                match st.code() {
+                    Some(0) => NestOutcome::Fine,
+                    Some(3) => {
+                        let line = stdout.lines().find(|l| l.starts_with("NEST ")).unwrap_or("").to_string();
+                        let site = line.rsplit(" @ ").next().unwrap_or("").to_string();
+                        NestOutcome::Panic(line, site)
+                    }
+                    other => NestOutcome::Harness(format!("nestcase exited with {other:?}: {}", short(&stdout, 200))),
+                }
+            }
+        }
+    };
+    (outcome, took)
+}
+
+fn nest_big_depth(shape: &str) -> usize {
+    // the deepest input of this shape that stays within NEST_CAP bytes (at most 20 000 levels)
+    let (mut lo, mut hi) = (NEST_SMALL_DEPTH, 20_000usize);
+    let fits = |d: usize| nest_input(shape, d).map(|(_, b)| b.len() <= NEST_CAP).unwrap_or(false);
+    if fits(hi) {
+        return hi;
+    }
+    while hi - lo > 16 {
+        let mid = (lo + hi) / 2;
+        if fits(mid) { lo = mid } else { hi = mid }
+    }
+    lo
+}
+
+fn nest_violation(ctx: &mut RunCtx, shape: &str, depth: usize, bound_s: u64, outcome: &NestOutcome, extra: &str) {
+    let bytes = nest_input(shape, depth).map(|(_, b)| b.len()).unwrap_or(0);
+    let (class, sig, what) = match outcome {
+        NestOutcome::Died(stage) => (
+            "nesting-stack-overflow",
+            format!("nesting-stack-overflow|shape={shape}|stage={stage}"),
+            format!("the process is killed by a signal (stack overflow on an 8 MiB stack) in stage `{stage}`"),
+        ),
+        NestOutcome::Stalled(stage) => (
+            "nesting-hang",
+            format!("nesting-hang|shape={shape}|stage={stage}"),
+            format!("stage `{stage}` does not come back within {bound_s} s"),
+        ),
+        NestOutcome::Panic(line, site) => ("nesting-panic", format!("nesting-panic|shape={shape}|site={site}"), format!("panic: {line}")),
+        _ => return,
+    };
+    ctx.violation(
+        PROP,
+        class,
+        sig,
+        format!("input `{shape}` nested {depth} deep ({bytes} bytes): {what}{extra}"),
+        json!({ "kind": "nest", "shape": shape, "depth": depth, "bound_s": bound_s }),
+    );
+}
+
+fn nest_run(ctx: &mut RunCtx, j: usize) {
+    let shape = NEST_SHAPES[j % NEST_SHAPES.len()];
+    ctx.stats.inc("nest_shapes_run", 1);
+    // rung 1: a few dozen levels — only a consumer whose cost explodes with depth notices
+    let (o, _) = nest_child(shape, NEST_SMALL_DEPTH, NEST_SMALL_BOUND_S);
+    ctx.stats.inc("evaluations", 1);
+    ctx.stats.inc("nest_cases", 1);
+    ctx.event(&format!("nest {shape} depth={NEST_SMALL_DEPTH} -> {}", nest_tag(&o)));
+    match &o {
+        NestOutcome::Harness(e) => {
+            ctx.harness_error(format!("nesting case {shape}: {e}"));
+            return;
+        }
+        NestOutcome::Fine => {}
+        NestOutcome::Stalled(_) => {
+            ctx.stats.inc("nest_hangs", 1);
+            // how the time grows below the bound (reported, not judged)
+            let mut growth = String::new();
+            for d in [8usize, 10, 12, 14] {
+                let (o2, t2) = nest_child(shape, d, NEST_SMALL_BOUND_S);
+                growth.push_str(&format!(" depth {d}: {}{} ms;", if o2 == NestOutcome::Fine { "" } else { "not finished after " }, t2.as_millis()));
+            }
+            nest_violation(ctx, shape, NEST_SMALL_DEPTH, NEST_SMALL_BOUND_S, &o, &format!(" — for comparison, the same shape at{growth}"));
+            return;
+        }
+        _ => {
+            ctx.stats.inc("nest_crashes", 1);
+            nest_violation(ctx, shape, NEST_SMALL_DEPTH, NEST_SMALL_BOUND_S, &o, "");
+            return;
+        }
+    }
+    // deeper rungs: judged on crashes only
+    let big = nest_big_depth(shape);
+    let fits = |d: usize| nest_input(shape, d).map(|(_, b)| b.len() <= NEST_CAP).unwrap_or(false);
+    let (rungs, bound): (Vec<usize>, u64) = match (shape.starts_with("aiken-"), ctx.tier) {
+        (true, Tier::Quick) => (vec![800], NEST_BIG_BOUND_QUICK_S),
+        (true, Tier::Thorough) => (vec![800, 2400], NEST_BIG_BOUND_THOROUGH_S),
+        (false, Tier::Quick) => (vec![big], NEST_BIG_BOUND_QUICK_S),
+        (false, Tier::Thorough) => (vec![big / 8, big / 2, big], NEST_BIG_BOUND_THOROUGH_S),
+    };
+    let mut last_fine = NEST_SMALL_DEPTH;
+    for depth in rungs {
+        if depth <= NEST_SMALL_DEPTH || !fits(depth) {
+            continue;
+        }
+        let (o, _) = nest_child(shape, depth, bound);
+        ctx.stats.inc("evaluations", 1);
+        ctx.stats.inc("nest_cases", 1);
+        ctx.stats.add("nest_distinct", hash_str(&format!("{shape}|{depth}")));
+        ctx.event(&format!("nest {shape} depth={depth} -> {}", nest_tag(&o)));
+        match &o {
+            NestOutcome::Fine => {
+                last_fine = depth;
+                continue;
+            }
+            NestOutcome::Harness(e) => {
+                ctx.harness_error(format!("nesting case {shape}: {e}"));
+                return;
+            }
+            NestOutcome::Stalled(_) => {
+                // slow, not judged (see the header); deeper rungs would only be slower
+                ctx.stats.inc("nest_slow_not_judged", 1);
+                return;
+            }
+            NestOutcome::Died(_) | NestOutcome::Panic(_, _) => {
+                ctx.stats.inc("nest_crashes", 1);
+                // minimise: the shallowest depth that still fails the same way
+                let same = |a: &NestOutcome, b: &NestOutcome| std::mem::discriminant(a) == std::mem::discriminant(b);
+                let (mut lo, mut hi) = (last_fine, depth);
+                let mut worst = o.clone();
+                let mut steps = 0;
+                while hi - lo > (hi / 16).max(8) && steps < 6 {
+                    steps += 1;
+                    let mid = (lo + hi) / 2;
+                    let (om, _) = nest_child(shape, mid, bound);
+                    ctx.stats.inc("nest_minimisation_cases", 1);
+                    if same(&om, &o) {
+                        hi = mid;
+                        worst = om;
+                    } else {
+                        lo = mid;
+                    }
+                }
+                // the signature names the stage that dies at the full depth (the first stage of the
+                // chain that recurses on the input); near the threshold a later stage may die first
+                let at_threshold = if nest_tag(&worst) != nest_tag(&o) { format!("; at depth {hi}: {}", nest_tag(&worst)) } else { String::new() };
+                nest_violation(ctx, shape, depth, bound, &o, &format!(" — shallowest failing depth found: {hi} ({} bytes){at_threshold}; depth {lo} did not fail that way", nest_input(shape, hi).map(|(_, b)| b.len()).unwrap_or(0)));
+                return;
+            }
+        }
+    }
+}
+
+fn nest_tag(o: &NestOutcome) -> String {
+    match o {
+        NestOutcome::Fine => "fine".into(),
+        NestOutcome::Panic(_, site) => format!("panic@{site}"),
+        NestOutcome::Died(stage) => format!("died in {stage}"),
+        NestOutcome::Stalled(stage) => format!("stalled in {stage}"),
+        NestOutcome::Harness(_) => "harness".into(),
+    }
+}
+
+fn nest_replay(ctx: &mut RunCtx, trace: &Value) {
+    let shape = jstr(trace, "shape");
+    let depth = ju64(trace, "depth") as usize;
+    let bound = ju64(trace, "bound_s").max(1);
+    let Some(shape) = NEST_SHAPES.iter().find(|s| **s == shape) else {
+        ctx.harness_error("replay: unknown nesting shape".into());
+        return;
+    };
+    let (o, _) = nest_child(shape, depth, bound);
+    nest_violation(ctx, shape, depth, bound, &o, " (replay)");
 }
